@@ -20,8 +20,19 @@ package web
 //@   pure
 //@ assumed (*server.ProxyDataset).ForwardEntities
 //@   pure
-//@ assumed (*datasetHandler).lookupAuth
+// the authorisation applied to the backend requests of a proxy dataset is the one of the login provider registered under the
+// lower-cased name (the key the provider registry is filled with, at registration and at reload: internal/security)
+//@ assumed strings.ToLower
 //@   pure
+//@   ensures result == lower(s)
+//@ unit (*datasetHandler).lookupAuth
+//@   prop C01 C02 C15
+//@   ghost foundG bool = false
+//@   requires handler != nil
+//@   ensures [a-backend-request-is-always-given-an-authoriser] result != nil
+//@   modifies none
+//@   at call Get#1 before
+//@     assert [the-login-provider-is-looked-up-in-the-hubs-registry-under-the-lower-cased-name-it-is-registered-with] $arg0 == handler.tokenProviders && $arg1 == lower(authProviderName)
 //@ assumed server.HTTPFullsyncErr
 //@   pure
 //@ assumed server.HTTPGenericErr
@@ -30,6 +41,7 @@ package web
 //@   pure
 //@ assumed (echo.Context).Request
 //@   pure
+//@   ensures result == reqOf(recv)
 //@ assumed (echo.Context).NoContent
 //@   pure
 //@ assumed (*http.Request).Context
@@ -247,8 +259,35 @@ package web
 //@     invariant -1 <= $i && $i < len(continuations) && len(relatedFroms) == len(continuations) && !foreign(relatedFroms)
 //@     invariant forall a int :: 0 <= a && a <= $i ==> relatedFroms[a] != nil && !foreign(relatedFroms[a]) && allocated(relatedFroms[a])
 //@     invariant forall a int, b int :: 0 <= a && a < b && b <= $i ==> relatedFroms[a] != relatedFroms[b]
-//@ assumed web.encodeCont
-//@   pure
+// every continuation the scan returned that is not nil is serialised and encoded into a token of its own, in order: none is
+// dropped (a dropped continuation would silently end the paging of that start point), none is invented or repeated
+//@ unit web.encodeCont
+//@   prop C03
+//@   ghost srcG intmap
+//@   ghost dstG intmap
+//@   ghost jsonG slice
+//@   ghost encG string = ""
+//@   ensures [C03:every-token-handed-back-encodes-a-continuation-the-scan-returned] ret1 == nil ==> (forall j int :: 0 <= j && j < len(ret0) ==> 0 <= srcG[j] && srcG[j] < len(relatedFroms) && relatedFroms[srcG[j]] != nil)
+//@   ensures [C03:tokens-keep-the-order-of-the-continuations-without-repeats] ret1 == nil ==> (forall j int, k int :: 0 <= j && j < k && k < len(ret0) ==> srcG[j] < srcG[k])
+//@   ensures [C03:no-continuation-the-scan-returned-is-dropped] ret1 == nil ==> (forall i int :: 0 <= i && i < len(relatedFroms) && relatedFroms[i] != nil ==> 0 <= dstG[i] && dstG[i] < len(ret0) && srcG[dstG[i]] == i)
+//@   modifies []string
+//@   at call Marshal#1 before
+//@     assert [C03:the-continuation-at-hand-is-serialised] typeof(v) == typeid("*server.RelatedFrom") && cast(v, "*server.RelatedFrom") == relatedFroms[$i1 + 1]
+//@   at call Marshal#1
+//@     ghost jsonG := $result0
+//@   at call EncodeToString#1 before
+//@     assert [C03:the-token-is-the-encoding-of-the-serialised-continuation] src == jsonG
+//@   at call EncodeToString#1
+//@     ghost encG := $result
+//@   at call append#1 before
+//@     assert [C03:the-token-of-the-continuation-at-hand-is-appended] len($arg1) == 1 && $arg1[0] == encG
+//@     ghost srcG := put(srcG, len(continuations), $i1 + 1)
+//@     ghost dstG := put(dstG, $i1 + 1, len(continuations))
+//@   loop 1
+//@     invariant -1 <= $i && $i < len(relatedFroms) && !foreign(continuations)
+//@     invariant [C03:every-token-so-far-encodes-a-continuation-walked-so-far] forall j int :: 0 <= j && j < len(continuations) ==> 0 <= srcG[j] && srcG[j] <= $i && relatedFroms[srcG[j]] != nil
+//@     invariant [C03:tokens-so-far-in-the-order-of-their-continuations] forall j int, k int :: 0 <= j && j < k && k < len(continuations) ==> srcG[j] < srcG[k]
+//@     invariant [C03:every-continuation-walked-so-far-has-its-token] forall i int :: 0 <= i && i <= $i && relatedFroms[i] != nil ==> 0 <= dstG[i] && dstG[i] < len(continuations) && srcG[dstG[i]] == i
 //@ assumed (*server.Store).GetGlobalContext
 //@   pure
 //@ assumed server.ToLegacyQueryResult
@@ -265,6 +304,8 @@ package web
 //@   ghost outContG slice
 //@   requires handler != nil && handler.store != nil
 //@   requires [request-handlers-hold-no-lock] forall l int :: !has($held, l)
+//@   at call GetEntity#1 before
+//@     assert [C03:an-entity-lookup-passes-the-id-the-dataset-scope-and-the-merge-mode-of-the-request-through] $arg0 == handler.store && $arg1 == query.EntityID && $arg2 == query.Datasets && $arg3 == !query.NoPartialMerging
 //@   at call decodeCont#1 before
 //@     assert [C03:the-continuations-of-the-request-are-decoded] $arg0 == query.Continuations
 //@   at call decodeCont#1
@@ -273,14 +314,32 @@ package web
 //@     assert [C03,C06:a-continuation-request-scans-exactly-the-decoded-continuations-with-the-requested-limit] $arg1 == contG && $arg2 == query.Limit && $arg3 == !query.NoPartialMerging
 //@   at call GetManyRelatedEntitiesAtTime#1
 //@     ghost outContG := $result0.Cont
+//@     ghost relsG := $result0.Relations
 //@   at call encodeCont#1 before
 //@     assert [C03:continuations-handed-back-are-the-ones-the-scan-returned] $arg0 == outContG
 //@   at call GetManyRelatedEntitiesBatch#1 before
 //@     assert [C03:a-first-request-passes-start-points-predicate-direction-scope-and-limit-through] $arg1 == query.StartingEntities && $arg2 == query.Predicate && $arg3 == query.Inverse && $arg4 == query.Datasets && $arg5 == query.Limit && $arg6 == !query.NoPartialMerging
 //@   at call GetManyRelatedEntitiesBatch#1
 //@     ghost outContG := $result0.Cont
+//@     ghost relsG := $result0.Relations
 //@   at call encodeCont#2 before
 //@     assert [C03:continuations-handed-back-are-the-ones-the-scan-returned] $arg0 == outContG
+// the response carries the scan's result and the encoded continuations of that very scan
+//@   ghost relsG slice
+//@   ghost legacyG iface
+//@   ghost tokensG slice
+//@   at call ToLegacyQueryResult#1 before
+//@     assert [C03:the-result-written-is-the-one-the-scan-returned] $arg0.Relations == relsG && $arg0.Cont == outContG
+//@   at call ToLegacyQueryResult#2 before
+//@     assert [C03:the-result-written-is-the-one-the-scan-returned] $arg0.Relations == relsG && $arg0.Cont == outContG
+//@   at call encodeCont#1
+//@     ghost tokensG := $result0
+//@   at call encodeCont#2
+//@     ghost tokensG := $result0
+//@   at call JSON#2 before
+//@     assert [C03:a-continuation-response-carries-the-tokens-of-its-own-scan] len(result) == 3 && typeof(result[2]) == typeid("[]string") && cast(result[2], "[]string") == tokensG
+//@   at call JSON#3 before
+//@     assert [C03:a-first-response-carries-the-tokens-of-its-own-scan-when-a-limit-was-given] includeContinuation ==> len(result) == 3 && typeof(result[2]) == typeid("[]string") && cast(result[2], "[]string") == tokensG
 
 // ---------------------------------------------------------------------------
 // C02: GET /datasets/:dataset/changes. The feed is read from the decoded `since` position with the requested limit and
@@ -350,8 +409,47 @@ package web
 //@   pure
 //@ assumed strconv.ParseInt
 //@   pure
+// the JSON-LD continuation element carries the token it is given, unchanged, under core:token
+//@ unit web.makeJsonLdContinuationToken
+//@   prop C02
+//@   ghost jsonG slice
+//@   ensures [C02:the-element-written-is-the-serialised-continuation-element] result == bytesStr(jsonG)
+//@   at call Marshal#1 before
+//@     assert [C02:the-json-ld-continuation-element-carries-the-token-unchanged] typeof(contToken["core:token"]) == typeid("string") && cast(contToken["core:token"], "string") == token
+//@   at call Marshal#1
+//@     ghost jsonG := $result0
 //@ unit (*datasetHandler).getChangesHandler
 //@   prop C02
+//@   ghost fwdTokG string = ""
+//@   ghost encG string = ""
+//@   at call StreamChanges#1 before
+//@     assert [C02:a-proxied-feed-is-read-with-the-requests-own-position-limit-and-mode] $arg1 == since && $arg2 == l && $arg3 == latestOnly && $arg4 == reverse
+//@   at call StreamChanges#1
+//@     ghost fwdTokG := $result0
+//@   at call StreamChangesRaw#1 before
+//@     assert [C02:a-proxied-feed-is-read-with-the-requests-own-position-limit-and-mode] $arg1 == since && $arg2 == l && $arg3 == latestOnly && $arg4 == reverse
+//@   at call StreamChangesRaw#1
+//@     ghost fwdTokG := $result0
+//@   at call makeJsonLdContinuationToken#1 before
+//@     assert [C02:the-token-handed-back-for-a-proxied-feed-is-the-one-the-remote-feed-returned] $arg0 == fwdTokG
+//@   at call Write#2 before
+//@     assert [C02:the-token-handed-back-for-a-proxied-feed-is-the-one-the-remote-feed-returned] bytesStr($arg1) == ", {\"id\":\"@continuation\",\"token\":\"" + fwdTokG + "\"}]"
+//@   at call StreamChanges#2 before
+//@     assert [C02:a-virtual-feed-is-read-from-the-requests-own-position] $arg1 == since
+//@   at call StreamChanges#2
+//@     ghost fwdTokG := $result0
+//@   at call StreamChanges#3 before
+//@     assert [C02:a-virtual-feed-is-read-from-the-requests-own-position] $arg1 == since
+//@   at call StreamChanges#3
+//@     ghost fwdTokG := $result0
+//@   at call makeJsonLdContinuationToken#2 before
+//@     assert [C02:the-token-handed-back-for-a-virtual-feed-is-the-one-the-feed-returned] $arg0 == fwdTokG
+//@   at call Write#5 before
+//@     assert [C02:the-token-handed-back-for-a-virtual-feed-is-the-one-the-feed-returned] bytesStr($arg1) == ", {\"id\":\"@continuation\",\"token\":\"" + fwdTokG + "\"}]"
+//@   at call encodeSince#2
+//@     ghost encG := $result
+//@   at call makeJsonLdContinuationToken#3 before
+//@     assert [C02:the-json-ld-token-is-the-encoding-of-the-position-the-read-returned] $arg0 == encG
 //@   ghost sinceG int = 0
 //@   ghost limitG int = 0
 //@   ghost tokG int = 0
@@ -432,8 +530,135 @@ package web
 //@   prop C16
 //@   ghost realG bool = false
 //@   requires env != nil && env.Auth != nil && logger != nil
+//@   modifies none
 //@   ensures [C16:with-security-enabled-the-routes-are-guarded-by-the-enforcing-authorizer] (env.Auth.Middleware == "local" || env.Auth.Middleware == "opa" || env.Auth.Middleware == "on") && env.AdminUserName != "" && env.AdminPassword != "" ==> realG
 //@   at call Authorizer#1 before
 //@     assert [C16:the-enforcing-authorizer-checks-against-the-security-core] $arg0 == core
 //@   at call Authorizer#1
 //@     ghost realG := true
+
+// ---------------------------------------------------------------------------
+// C16: the token check in front of every route. The skipper opens exactly the documented routes; the JWT middleware is built
+// with that skipper, the node's own key, issuer and audience (security enabled) and the configured external ones; it is
+// installed on the router for every setting but "noop".
+// ASSUMED: echo's Context.Request is a getter (the same request for the same context while nothing is modified)
+//@ spec reqOf(c iface) *http.Request
+//@ spec openRoute(p string) bool = hasPrefix(p, "/health") || hasPrefix(p, "/mimiro-favicon.png") || hasPrefix(p, "/favicon.ico") || hasPrefix(p, "/api") || hasPrefix(p, "/static") || hasPrefix(p, "/security/token")
+//@ unit web.NewMiddleware$1
+//@   prop C16
+//@   requires reqOf(c) != nil && reqOf(c).URL != nil
+//@   ensures [C16:only-the-documented-open-routes-skip-the-token-check] result <==> openRoute(reqOf(c).URL.Path)
+//@   modifies none
+//@ assumed middlewares.JWTHandler
+//@   pure
+//@ unit web.setupJWT
+//@   prop C16
+//@   ghost handlerG int = 0
+//@   requires env != nil && env.Auth != nil && core != nil && core.NodeInfo != nil && len(core.NodeInfo.KeyPairs) > 0 && core.NodeInfo.KeyPairs[0] != nil
+//@   ensures [C16:the-token-check-handed-back-is-the-one-built-from-this-configuration] result == handlerG
+//@   modifies middlewares.JwtConfig.*, []string
+//@   at call JWTHandler#1 before
+//@     assert [C16:the-token-check-is-skipped-only-where-the-given-skipper-says-so] config.Skipper == skipper
+//@     assert [C16:with-security-enabled-node-tokens-are-verified-against-the-nodes-own-key-issuer-and-audience] (env.Auth.Middleware == "local" || env.Auth.Middleware == "opa" || env.Auth.Middleware == "on") ==> config.NodePublicKey == core.NodeInfo.KeyPairs[0].PublicKey && len(config.NodeIssuer) == 1 && config.NodeIssuer[0] == "node:" + core.NodeInfo.NodeID && len(config.NodeAudience) == 1 && config.NodeAudience[0] == "node:" + core.NodeInfo.NodeID
+//@     assert [C16:external-tokens-are-checked-against-the-configured-audience-issuer-and-key-set] config.Audience == env.Auth.Audience && config.Issuer == env.Auth.Issuer && config.Wellknown == env.Auth.WellKnown
+//@   at call JWTHandler#1
+//@     ghost handlerG := $result
+//@ assumed (*echo.Echo).Use
+//@   pure
+//@ unit (*Middleware).configure
+//@   prop C16
+//@   ghost jwtG bool = false
+//@   requires middleware != nil && middleware.env != nil && middleware.env.Auth != nil && middleware.logger != nil
+//@   ensures [C16:the-token-check-is-installed-on-the-router-unless-security-is-switched-off] middleware.env.Auth.Middleware != "noop" ==> jwtG
+//@   at call Use#* before
+//@     ghost jwtG := jwtG || ($arg0 == e && len($arg1) == 1 && $arg1[0] == middleware.jwt)
+// the other middlewares are built from library constructors only: they leave the configuration and the security core alone
+//@ assumed middlewares.LoggerFilter
+//@   pure
+//@ assumed middlewares.RecoverWithConfig
+//@   pure
+//@ assumed middleware.CORSWithConfig
+//@   pure
+//@ assumed (*zap.SugaredLogger).Desugar
+//@   pure
+//@ unit web.setupLogger
+//@   prop C16
+//@   modifies none
+//@ unit web.setupCors
+//@   prop C16
+//@   modifies none
+//@ unit web.setupRecovery
+//@   prop C16
+//@   modifies none
+//@ unit web.NewMiddleware
+//@   prop C16
+//@   ghost jwtG int = 0
+//@   ghost authzG int = 0
+//@   requires env != nil && env.Auth != nil && logger != nil && core != nil && core.NodeInfo != nil && len(core.NodeInfo.KeyPairs) > 0 && core.NodeInfo.KeyPairs[0] != nil
+//@   at call setupJWT#1 before
+//@     assert [C16:the-token-check-is-built-for-this-configuration-and-security-core] $arg0 == env && $arg1 == core
+//@     assert [C16:the-token-check-skips-only-what-the-skipper-of-the-documented-open-routes-lets-through] $arg2 == skipper
+//@   at call setupJWT#1
+//@     ghost jwtG := $result
+//@   at call NewAuthorizer#1 before
+//@     assert [C16:the-authorizer-is-chosen-for-this-configuration-and-security-core] $arg0 == env && $arg2 == core
+//@   at call NewAuthorizer#1
+//@     ghost authzG := $result
+//@   at call configure#1 before
+//@     assert [C16:the-middlewares-installed-on-the-router-are-the-ones-built-here] $arg0 != nil && $arg0.jwt == jwtG && $arg0.authorizer == authzG && $arg0.env == env && $arg1 == e
+
+// ---------------------------------------------------------------------------
+// C01: GET /datasets/:dataset/entities. The listing is read from the request's own `from` token with the requested page size,
+// and the continuation token handed back is exactly the one that listing returned (local datasets and proxied ones), so
+// that following the tokens visits every entity once. (The listing itself: (*Dataset).MapEntities / MapEntitiesRaw in
+// internal/server; seen from here only their frame is used.)
+//@ assumed (*server.Dataset).MapEntities
+//@   pure
+//@ assumed (*server.Dataset).MapEntitiesRaw
+//@   pure
+//@ assumed url.QueryUnescape
+//@   pure
+//@ unit (*datasetHandler).getEntitiesHandler
+//@   prop C01
+//@   ghost fromG string = ""
+//@   ghost limitTextG string = ""
+//@   ghost limG int = 0
+//@   ghost tokG string = ""
+//@   requires handler != nil && handler.datasetManager != nil
+//@   dyncall preStream pure
+//@   at call QueryParam#1 before
+//@     assert [C01:the-page-size-is-the-limit-parameter-of-the-request] name == "limit" && $arg0 == c
+//@   at call QueryParam#1
+//@     ghost limitTextG := $result
+//@   at call ParseInt#1 before
+//@     assert [C01:the-page-size-is-the-limit-parameter-of-the-request] s == limitTextG && base == 10
+//@   at call ParseInt#1
+//@     ghost limG := $result0
+//@   at call QueryParam#2 before
+//@     assert [C01:the-listing-position-is-the-from-parameter-of-the-request] name == "from" && $arg0 == c
+//@   at call QueryParam#2
+//@     ghost fromG := $result
+//@   at call MapEntities#1 before
+//@     assert [C01:the-listing-is-read-from-the-requests-own-token-with-the-requested-page-size] $arg0 == dataset && $arg1 == fromG && $arg2 == l && (limitTextG != "" ==> l == limG) && (limitTextG == "" ==> l == 0)
+//@   at call MapEntities#1
+//@     ghost tokG := $result0
+//@   at call MapEntitiesRaw#1 before
+//@     assert [C01:the-listing-is-read-from-the-requests-own-token-with-the-requested-page-size] $arg0 == dataset && $arg1 == fromG && $arg2 == l && (limitTextG != "" ==> l == limG) && (limitTextG == "" ==> l == 0)
+//@   at call MapEntitiesRaw#1
+//@     ghost tokG := $result0
+//@   at call makeJsonLdContinuationToken#2 before
+//@     assert [C01:the-token-handed-back-is-the-one-the-listing-returned] $arg0 == tokG
+//@   at call Write#5 before
+//@     assert [C01:the-token-handed-back-is-the-one-the-listing-returned] bytesStr($arg1) == ", {\"id\":\"@continuation\",\"token\":\"" + tokG + "\"}]"
+//@   at call StreamEntities#1 before
+//@     assert [C01:a-proxied-listing-is-read-from-the-requests-own-token-with-the-requested-page-size] $arg1 == fromG && $arg2 == l && (limitTextG != "" ==> l == limG) && (limitTextG == "" ==> l == 0)
+//@   at call StreamEntities#1
+//@     ghost tokG := $result0
+//@   at call StreamEntitiesRaw#1 before
+//@     assert [C01:a-proxied-listing-is-read-from-the-requests-own-token-with-the-requested-page-size] $arg1 == fromG && $arg2 == l && (limitTextG != "" ==> l == limG) && (limitTextG == "" ==> l == 0)
+//@   at call StreamEntitiesRaw#1
+//@     ghost tokG := $result0
+//@   at call makeJsonLdContinuationToken#1 before
+//@     assert [C01:the-token-handed-back-for-a-proxied-listing-is-the-one-the-remote-listing-returned] $arg0 == tokG
+//@   at call Write#2 before
+//@     assert [C01:the-token-handed-back-for-a-proxied-listing-is-the-one-the-remote-listing-returned] bytesStr($arg1) == ", {\"id\":\"@continuation\",\"token\":\"" + tokG + "\"}]"
